@@ -57,7 +57,7 @@ class PolynomialShapeOnly(Contract):
         raise U("polynomial(...) of this input kind", node)
 
 
-NAMES = ("q0", "q1")
+NAMES = ("q0", "q1", "q2")
 
 
 def binding_cases():
@@ -70,6 +70,10 @@ def binding_cases():
            #  forbidden by the property; placeholders otherwise mean partial evaluation, which is outside this proof)
            ("D2.twice", 2, (0, 1), {"q1": "x"}, "TypeError"), ("D2.twice_first", 2, (0,), {"q0": "x", "q1": 1}, "TypeError"),
            ("D2.unknown_keyword", 2, (0, 1), {"q7": "x"}, "TypeError"), ("D1.unknown_keyword", 1, (), {"q0": 0, "zz": "x"}, "TypeError")]
+    from engine.contract import deep
+    if deep():
+        out += [("D3.positional", 3, (0, 1, 2), {}, "ok"), ("D3.mixed", 3, (0,), {"q2": 2, "q1": 1}, "ok"),
+                ("D3.twice", 3, (0, 1, 2), {"q1": "x"}, "TypeError")]
     return out
 
 
@@ -78,7 +82,9 @@ def substitution_cases():
     return [("D1.poly_positional", 1, (0,), {}), ("D1.poly_keyword", 1, (), {"q0": 0}), ("D2.poly_positional", 2, (0, 1), {}),
             ("D2.poly_mixed", 2, (0,), {"q1": 1}),
             # partial evaluation: an indeterminate that is given nothing (or a None placeholder) stands for itself
-            ("D2.poly_partial_first", 2, (0,), {}), ("D2.poly_partial_keyword", 2, (), {"q1": 1}), ("D2.poly_partial_placeholder", 2, (None, 1), {})]
+            ("D2.poly_partial_first", 2, (0,), {}), ("D2.poly_partial_keyword", 2, (), {"q1": 1}), ("D2.poly_partial_placeholder", 2, (None, 1), {})] + (
+        [("D3.poly_positional", 3, (0, 1, 2), {}), ("D3.poly_partial", 3, (0, None, 2), {}), ("D3.poly_keyword", 3, (), {"q2": 2, "q0": 0})]
+        if __import__("engine.contract", fromlist=["deep"]).deep() else [])
 
 
 class PolyOuter:
